@@ -199,13 +199,38 @@ func (to *TraceObserver) QueueBatch(count uint64, batch []byte) {
 		to.emptyQueue()
 	}
 
+	// The batch does not fit into the emptied queue either: it is larger
+	// than the whole queue, or the rest of the capacity is taken by a batch
+	// that is being sent right now. Drop it instead of letting the unsigned
+	// capacity counter wrap around.
+	if to.messagesRemainingCapacity < count {
+		to.discardBatch(count)
+		return
+	}
+
 	b := &spanBatch{
 		count: count,
 		batch: batch,
 	}
 
-	to.messages <- b
-	to.messagesRemainingCapacity -= count
+	// Never block the caller (the processor): the channel has one slot per
+	// span, so this only fails for batches that claim to hold no spans.
+	select {
+	case to.messages <- b:
+		to.messagesRemainingCapacity -= count
+	default:
+		to.discardBatch(count)
+	}
+}
+
+// Drop a single span batch and account for its spans like for a dumped queue.
+func (to *TraceObserver) discardBatch(count uint64) {
+	to.supportability.increment <- metricIncrement{
+		name:  supportabilityQueueDumped,
+		count: float64(count),
+	}
+
+	log.Debugf("trace observer dropped a batch of %d spans due to backpressure", count)
 }
 
 // Shut down the trace observer connection. This blocks until the shutdown is
